@@ -279,6 +279,7 @@ fn check(validator: &TransactionValidator, bytes: &[u8], family: &str, how: &dyn
 // (1) product of signer / notary choices
 // ------------------------------------------------------------------------------------------------
 
+const DOUBLE_WALL_CAP_S: f64 = 900.0;
 const DOUBLE_SEEDS: [&str; 2] = ["v1-k0-notary-a", "v2-k1-no-subintents"];
 const A: KeyId = KeyId::Secp(1);
 const B: KeyId = KeyId::Secp(2);
@@ -602,28 +603,42 @@ pub fn run(ctx: Ctx) -> ! {
             buf[off] = b;
             check(&validator, &buf, "byte", &|| json!({"seed": name, "offset": off, "value": b, "seed_hex": mc_core::hex(raw)}), Expect::Any, facts[si].as_ref(), l, &stats);
         }
-        buf[off] = orig;
-        // thorough: every substitution of two adjacent bytes on the two smallest seeds (the signature that covers the
-        // content still has to break, whatever the pair)
-        if all && DOUBLE_SEEDS.contains(name) && off + 1 < raw.len() {
-            for b1 in 0..=255u8 {
-                if b1 == orig {
-                    continue;
-                }
-                buf[off] = b1;
-                for b2 in 0..=255u8 {
-                    if b2 == raw[off + 1] {
-                        continue;
-                    }
-                    buf[off + 1] = b2;
-                    check(&validator, &buf, "byte2", &|| json!({"seed": name, "offset": off, "value": b1, "value2": b2, "seed_hex": mc_core::hex(raw)}), Expect::Any, facts[si].as_ref(), l, &stats);
-                }
-            }
-            double.fetch_add(255 * 255, Ordering::Relaxed);
-        }
     });
 
+    // thorough: every substitution of two adjacent bytes on the two smallest seeds (the signature that covers the
+    // content still has to break, whatever the pair); wall-capped, the sweeps above always complete
+    let double_jobs: Vec<(usize, usize)> = if all { jobs.iter().copied().filter(|(si, off)| DOUBLE_SEEDS.contains(&seed_raws[*si].0) && off + 1 < seed_raws[*si].1.len()).collect() } else { vec![] };
+    let double_capped = std::sync::atomic::AtomicBool::new(false);
+    par_range(&ctx, double_jobs.len() as u64, 1, |j, l| {
+        if ctx.elapsed_s() > DOUBLE_WALL_CAP_S {
+            double_capped.store(true, Ordering::Relaxed);
+            return;
+        }
+        let (si, off) = double_jobs[j as usize];
+        let (name, raw) = &seed_raws[si];
+        let mut buf = raw.clone();
+        for b1 in 0..=255u8 {
+            if b1 == raw[off] {
+                continue;
+            }
+            buf[off] = b1;
+            for b2 in 0..=255u8 {
+                if b2 == raw[off + 1] {
+                    continue;
+                }
+                buf[off + 1] = b2;
+                check(&validator, &buf, "byte2", &|| json!({"seed": name, "offset": off, "value": b1, "value2": b2, "seed_hex": mc_core::hex(raw)}), Expect::Any, facts[si].as_ref(), l, &stats);
+            }
+        }
+        double.fetch_add(255 * 255, Ordering::Relaxed);
+    });
+    let double_capped = double_capped.load(Ordering::Relaxed);
+    if double_capped {
+        ctx.note(format!("wall cap {DOUBLE_WALL_CAP_S}s hit during the adjacent-double-substitution sweep: {} of {} offsets completed; the product, signature-list and single-byte sweeps are complete", double.load(Ordering::Relaxed) / (255 * 255), double_jobs.len()));
+    }
+
     let mut cov = Map::new();
+    cov.insert("adjacent_double_substitution_offsets".into(), json!({"completed": double.load(Ordering::Relaxed) / (255 * 255), "planned": double_jobs.len()}));
     cov.insert("product_transactions".into(), json!(specs.len()));
     cov.insert("signature_list_perturbations".into(), json!(perturbed.len()));
     cov.insert("byte_mutation_seeds".into(), json!(seed_raws.iter().map(|(n, r)| json!({"name": n, "bytes": r.len()})).collect::<Vec<_>>()));
@@ -637,7 +652,7 @@ pub fn run(ctx: Ctx) -> ! {
         Level::Exploration,
         "a case is one payload validated from raw bytes by the real validator (latest configuration; V1 products also under babylon); non-trivial = payloads that got past preparation, limits and intent validation and were decided by signature verification (accepted, or rejected for an invalid / duplicate / notary-duplicating signature)",
         stats.reached.load(Ordering::Relaxed),
-        true,
+        !double_capped,
         cov,
         &[
             "the hashes a signature must cover are taken from the real preparation (their commitment to content is C32)",
